@@ -84,6 +84,9 @@ struct Worker {
 pub enum Choice {
     L,
     W(usize),
+    /// the client sends the next message while the loop is blocked on the write lock: the message
+    /// waits in the inbox (several can pile up) and is handled when the loop comes back
+    Q,
 }
 
 pub struct Exec {
@@ -105,6 +108,13 @@ fn wait(rx: &Receiver<Ev>) -> Ev {
     rx.recv_timeout(Duration::from_secs(30)).expect("sched harness: no event within 30 s (lost control of the system under test)")
 }
 
+fn next(rx: &Receiver<Ev>, backlog: &mut std::collections::VecDeque<Ev>) -> Ev {
+    match backlog.pop_front() {
+        Some(e) => e,
+        None => wait(rx),
+    }
+}
+
 fn fmt_request(id: i32, k: &str) -> Message {
     Message::Request(Request::new(id.into(), "textDocument/formatting".into(), fmt_params(k)))
 }
@@ -120,6 +130,24 @@ fn refs_request(id: i32, k: &str) -> Message {
             partial_result_params: Default::default(),
         },
     ))
+}
+
+fn build_message(m: &Msg, req_id: i32, pos: usize) -> Message {
+    match m {
+        Msg::Fmt(k) => fmt_request(req_id, k),
+        Msg::Refs(k) => refs_request(req_id, k),
+        Msg::Chg(k, t) => Message::Notification(Notification::new(
+            "textDocument/didChange".into(),
+            DidChangeTextDocumentParams {
+                text_document: VersionedTextDocumentIdentifier { uri: uri(k), version: pos as i32 },
+                content_changes: vec![TextDocumentContentChangeEvent { range: None, range_length: None, text: t.to_string() }],
+            },
+        )),
+        Msg::Save(k, t) => Message::Notification(Notification::new(
+            "textDocument/didSave".into(),
+            DidSaveTextDocumentParams { text_document: TextDocumentIdentifier { uri: uri(k) }, text: Some(t.to_string()) },
+        )),
+    }
 }
 
 /// One execution of the real server under the schedule `prefix` (then default choices).
@@ -184,7 +212,10 @@ pub fn run_schedule(script: &[(String, Msg)], prefix: &[Choice]) -> Exec {
     // a notification was delivered while a worker holds the server for computing: the loop is
     // expected to wait for it; its LoopHandled is collected when the last such worker lets go
     let mut loop_pending: Option<String> = None;
-    let mut early: Option<bool> = None;
+    // loop-side events that arrive while the explorer waits for a worker's pause point (the loop
+    // runs on as soon as the last computing worker lets go of the server); consumed in order
+    let mut backlog: std::collections::VecDeque<Ev> = Default::default();
+    let mut queued: Vec<(String, Msg, Option<i32>)> = vec![];
     let mut last_choice: Option<Choice> = None;
 
     loop {
@@ -208,6 +239,9 @@ pub fn run_schedule(script: &[(String, Msg)], prefix: &[Choice]) -> Exec {
                 }
             }
             enabled.push(Choice::W(i));
+        }
+        if next_msg < script.len() && loop_pending.is_some() {
+            enabled.push(Choice::Q);
         }
         if enabled.is_empty() {
             // reduction may have filtered everything although workers remain: lift it
@@ -239,6 +273,21 @@ pub fn run_schedule(script: &[(String, Msg)], prefix: &[Choice]) -> Exec {
         x.steps += 1;
         last_choice = Some(c.clone());
         match c {
+            Choice::Q => {
+                let (name, m) = script[next_msg].clone();
+                let pos = next_msg;
+                next_msg += 1;
+                let rid = if is_request(&m) {
+                    req_id += 1;
+                    x.request_pos.insert(req_id, pos);
+                    Some(req_id)
+                } else {
+                    None
+                };
+                client.sender.send(build_message(&m, rid.unwrap_or(0), pos)).unwrap();
+                x.log.push(format!("Q:{} (queued behind the blocked loop)", name));
+                queued.push((name, m, rid));
+            }
             Choice::L => {
                 let (name, m) = script[next_msg].clone();
                 let pos = next_msg;
@@ -337,25 +386,21 @@ pub fn run_schedule(script: &[(String, Msg)], prefix: &[Choice]) -> Exec {
                     let mut died = false;
                     loop {
                         match rx.recv_timeout(Duration::from_millis(50)) {
-                            Ok(Ev::Paused(id, ph, r)) => {
-                                assert_eq!(ids[&id], i, "sched harness: event from an unexpected worker");
+                            Ok(Ev::Paused(id, ph, r)) if ids.get(&id) == Some(&i) => {
                                 workers[i].phase = ph;
                                 workers[i].release = Some(r);
                                 x.log.push(format!("W{}:->{}", i, ph));
                                 break;
                             }
-                            Ok(Ev::LoopHandled(p)) => {
-                                // only legal while the loop is pending: an implementation that does not
-                                // wait for the computing worker answers early. Remember the result; the
-                                // explorer's own bookkeeping (not timing) decides when the loop is enabled again.
-                                if loop_pending.is_some() && early.is_none() {
-                                    early = Some(p);
-                                } else {
-                                    panic!("sched harness: LoopHandled without a pending message");
+                            Ok(other) => {
+                                // only legal while the loop has a delivered notification (and possibly an
+                                // inbox) to work on: the explorer's own bookkeeping, not timing, decides
+                                // when these events are consumed
+                                if loop_pending.is_none() {
+                                    panic!("sched harness: loop event without a pending message");
                                 }
+                                backlog.push_back(other);
                             }
-                            Ok(Ev::Spawned(..)) => panic!("sched harness: unexpected spawn"),
-                            Ok(Ev::LoopApplying) => panic!("sched harness: unexpected LoopApplying"),
                             Err(_) => {
                                 if workers[i].handle.as_ref().map(|h| h.is_finished()).unwrap_or(false) {
                                     died = true;
@@ -374,16 +419,57 @@ pub fn run_schedule(script: &[(String, Msg)], prefix: &[Choice]) -> Exec {
                 // did the last computing worker let go while the loop waits? then the loop finishes now
                 if loop_pending.is_some() && !workers.iter().any(|w| !w.done && w.phase == 1) {
                     let name = loop_pending.take().unwrap();
-                    let p = match early.take() {
-                        Some(p) => p,
-                        None => match wait(&rx) {
-                            Ev::LoopHandled(p) => p,
-                            _ => panic!("sched harness: expected the pending notification to complete"),
-                        },
+                    let p = match next(&rx, &mut backlog) {
+                        Ev::LoopHandled(p) => p,
+                        _ => panic!("sched harness: expected the pending notification to complete"),
                     };
                     x.log.push(format!("L:{} completed panicked={}", name, p));
                     if p {
                         x.loop_panics.push(name);
+                    }
+                    // the loop now works through everything that piled up in the inbox, in order
+                    for (qname, qm, rid) in queued.drain(..) {
+                        if let Some(rid) = rid {
+                            let (mut got_l, mut got_s) = (false, false);
+                            let mut pend: Option<(String, u8, Sender<()>)> = None;
+                            while !(got_l && got_s && pend.is_some()) {
+                                match next(&rx, &mut backlog) {
+                                    Ev::LoopHandled(p) => {
+                                        got_l = true;
+                                        if p {
+                                            x.loop_panics.push(qname.clone());
+                                        }
+                                    }
+                                    Ev::Spawned(id, h) => {
+                                        ids.insert(id, workers.len());
+                                        workers.push(Worker { req_id: rid, phase: 0, release: None, handle: Some(h), done: false, exit_ok: true });
+                                        got_s = true;
+                                    }
+                                    Ev::Paused(id, ph, r) => pend = Some((id, ph, r)),
+                                    Ev::LoopApplying => {}
+                                }
+                            }
+                            let (id, ph, r) = pend.unwrap();
+                            let wi = ids[&id];
+                            workers[wi].phase = ph;
+                            workers[wi].release = Some(r);
+                            x.log.push(format!("L:{}#{} (from the inbox)", qname, rid));
+                        } else {
+                            let _ = qm;
+                            loop {
+                                match next(&rx, &mut backlog) {
+                                    Ev::LoopApplying => {}
+                                    Ev::LoopHandled(p) => {
+                                        x.log.push(format!("L:{} (from the inbox) panicked={}", qname, p));
+                                        if p {
+                                            x.loop_panics.push(qname.clone());
+                                        }
+                                        break;
+                                    }
+                                    _ => panic!("sched harness: unexpected event while the loop drains its inbox"),
+                                }
+                            }
+                        }
                     }
                 }
             }
@@ -545,7 +631,7 @@ impl Engine for C11 {
         )
     }
     fn bound(&self, tier: Tier) -> String {
-        format!("scripts of <= {} messages, <= 3 concurrent workers, all interleavings (no preemption bound)", max_len(tier))
+        format!("scripts of <= {} messages plus all bursts (request, 3 notifications), <= 3 concurrent workers, all interleavings incl. client sends that pile up behind a blocked loop (no preemption bound)", max_len(tier))
     }
     fn assumptions(&self) -> Vec<String> {
         vec![
@@ -558,6 +644,19 @@ impl Engine for C11 {
         16
     }
     fn enumerate(&self, tier: Tier, emit: &mut dyn FnMut(&str)) {
+        // bursts: one request in flight and three notifications behind it (they can pile up in the
+        // inbox while the loop waits for the worker); part of both tiers
+        let reqs: Vec<&str> = ALPHABET.iter().filter(|m| is_request(&m.1)).map(|m| m.0).collect();
+        let nots: Vec<&str> = ALPHABET.iter().filter(|m| !is_request(&m.1)).map(|m| m.0).collect();
+        for r in &reqs[..2] {
+            for a in &nots {
+                for b in &nots {
+                    for c in &nots {
+                        emit(&format!("{},{},{},{}", r, a, b, c));
+                    }
+                }
+            }
+        }
         let n = ALPHABET.len();
         for len in 2..=max_len(tier) {
             let total = n.pow(len as u32);
@@ -609,7 +708,7 @@ impl Engine for C11 {
             Some(s) => vec![s
                 .split(',')
                 .filter(|t| !t.is_empty())
-                .map(|t| if t == "L" { Choice::L } else { Choice::W(t[1..].parse().unwrap()) })
+                .map(|t| if t == "L" { Choice::L } else if t == "Q" { Choice::Q } else { Choice::W(t[1..].parse().unwrap()) })
                 .collect()],
             None => vec![vec![]],
         };
@@ -649,7 +748,7 @@ impl Engine for C11 {
             }
         }
         if let Some((choices, bad, log)) = shortest {
-            let sched: Vec<String> = choices.iter().map(|c| match c { Choice::L => "L".to_string(), Choice::W(i) => format!("W{}", i) }).collect();
+            let sched: Vec<String> = choices.iter().map(|c| match c { Choice::L => "L".to_string(), Choice::Q => "Q".to_string(), Choice::W(i) => format!("W{}", i) }).collect();
             // replay the recorded schedule and compare observations. The quiescent-state oracle
             // is evaluated only after every delivered message was handled and every worker joined,
             // so an observed violation is a fact about the real code even if it does not
